@@ -543,6 +543,69 @@ def run(ctx) -> list[Inst]:
                       msg='' if inc else 'no call to <compiler>.compile found in the include handling',
                       file=vm.module.relpath, line=vm.node.lineno, props=props + ('C04',)))
 
+    # (a11) the grammar is checked on the text of ONE file at a time: the lexer's input is that file (FileStream) or its
+    # unedited text.  A text assembled from several files (includes pasted in, concatenation, regex substitution) can
+    # parse although one of the files is no MAL program by itself - an unterminated comment or an open brace that
+    # the including file happens to close
+    def text_origin(e, g, depth=0):
+        if depth > 4 or e is None:
+            return 'unknown'
+        if isinstance(e, ast.Call) and isinstance(e.func, ast.Attribute):
+            if e.func.attr in ('read', 'read_text'):
+                return 'file'
+            if e.func.attr in ('sub', 'subn', 'replace', 'join', 'format', 'expandtabs', 'translate'):
+                return 'edited'
+            if e.func.attr in ('decode', 'strip', 'rstrip', 'lstrip'):
+                return text_origin(e.func.value, g, depth + 1)
+            if isinstance(e.func.value, ast.Name) and g.self_name == e.func.value.id and g.cls is not None \
+                    and e.func.attr in g.cls.methods:
+                h = g.cls.methods[e.func.attr]
+                rs = [text_origin(r.value, h, depth + 1) for r in own_nodes(h.node) if isinstance(r, ast.Return)]
+                if rs and all(r == 'file' for r in rs):
+                    return 'file'
+                return 'edited' if 'edited' in rs else 'unknown'
+        if isinstance(e, ast.Call) and isinstance(e.func, ast.Name):
+            if e.func.id == 'str' and e.args:
+                return text_origin(e.args[0], g, depth + 1)
+            if g.module.functions.get(e.func.id) is not None:
+                h = g.module.functions[e.func.id]
+                rs = [text_origin(r.value, h, depth + 1) for r in own_nodes(h.node) if isinstance(r, ast.Return)]
+                if rs and all(r == 'file' for r in rs):
+                    return 'file'
+                return 'edited' if 'edited' in rs else 'unknown'
+        if isinstance(e, (ast.JoinedStr,)) or (isinstance(e, ast.BinOp) and isinstance(e.op, (ast.Add, ast.Mod))):
+            return 'edited'
+        if isinstance(e, ast.Name):
+            vals = [a.value for a in own_nodes(g.node) if isinstance(a, ast.Assign)
+                    and any(isinstance(t, ast.Name) and t.id == e.id for t in a.targets)]
+            aug = [a for a in own_nodes(g.node) if isinstance(a, ast.AugAssign) and isinstance(a.target, ast.Name)
+                   and a.target.id == e.id]
+            if aug:
+                return 'edited'
+            if vals:
+                rs = [text_origin(v, g, depth + 1) for v in vals]
+                if all(r == 'file' for r in rs):
+                    return 'file'
+                return 'edited' if 'edited' in rs else 'unknown'
+        return 'unknown'
+    construct11 = '(a) the lexer reads one file, unedited'
+    for n in own_nodes(f.node):
+        if isinstance(n, ast.Call) and stmt_text(n.func).split('.')[-1] in ('FileStream',):
+            insts.append(Inst(RULE, f.short, construct11, 'ok', msg='FileStream', file=rel, line=n.lineno, props=props))
+        elif isinstance(n, ast.Call) and stmt_text(n.func).split('.')[-1] in ('InputStream', 'StringStream') and n.args:
+            o = text_origin(n.args[0], f)
+            if o == 'edited':
+                insts.append(Inst(
+                    RULE, f.short, construct11, 'violation',
+                    msg=(f"'{stmt_text(n, 60)}' lexes a text that was assembled / rewritten (substitution, concatenation, "
+                         f"join) rather than read from one file: the grammar is no longer checked file by file, a "
+                         f"malformed (included) file is accepted whenever the assembled text happens to parse"),
+                    file=rel, line=n.lineno, props=props))
+            else:
+                insts.append(Inst(RULE, f.short, construct11, 'ok' if o == 'file' else 'unproven',
+                                  msg='' if o == 'file' else f"origin of '{stmt_text(n.args[0], 40)}' not recognised",
+                                  file=rel, line=n.lineno, props=props, nontrivial=(o == 'file')))
+
     # (a6) nothing in the package swallows exceptions wholesale: a context manager whose __exit__ returns a truthy
     # value suppresses whatever was raised inside the `with` (also the compile error of an included file)
     nexit = 0
